@@ -547,53 +547,58 @@ func (d *Downstream) resume(parentConn *Conn) error {
 	d.wireConn = parentConn.wireConn
 
 	var resErr error
-	retry.Do(func() (end bool) {
-		dpsCh, err := d.wireConn.SubscribeDownstreamChunk(d.ctx, d.idAlias, d.Config.QoS)
-		if err != nil {
-			resErr = fmt.Errorf("failed to SubscribeDownstreamChunk: %w", err)
-			return true
-		}
-		ackCompCh, err := d.wireConn.SubscribeDownstreamChunkAckComplete(d.ctx, d.idAlias)
+	// subscribe once: a second subscription of the same alias on one wire connection is refused, so
+	// it must not be repeated when the broker answers the resume request with a conflict
+	dpsCh, err := d.wireConn.SubscribeDownstreamChunk(d.ctx, d.idAlias, d.Config.QoS)
+	if err != nil {
+		resErr = fmt.Errorf("failed to SubscribeDownstreamChunk: %w", err)
+	}
+	var ackCompCh <-chan *message.DownstreamChunkAckComplete
+	if resErr == nil {
+		ackCompCh, err = d.wireConn.SubscribeDownstreamChunkAckComplete(d.ctx, d.idAlias)
 		if err != nil {
 			resErr = fmt.Errorf("failed to SubscribeDownstreamChunkAckComplete: %w", err)
-			return true
 		}
-
-		metaCh, err := parentConn.subscribeDownstreamMetadata(d.ctx, d.idAlias, d.Config.Filters)
+	}
+	var metaCh <-chan *message.DownstreamMetadata
+	if resErr == nil {
+		metaCh, err = parentConn.subscribeDownstreamMetadata(d.ctx, d.idAlias, d.Config.Filters)
 		if err != nil {
 			resErr = fmt.Errorf("failed to subscribeDownstreamMetadata: %w", err)
-			return true
 		}
-
-		resp, err := d.wireConn.SendDownstreamResumeRequest(d.ctx, &message.DownstreamResumeRequest{
-			StreamID:             d.ID,
-			DesiredStreamIDAlias: d.idAlias,
-		})
-		if err != nil {
-			resErr = fmt.Errorf("failed to SendDownstreamResumeRequest: %w", err)
-			return true
-		}
-
-		if resp.ResultCode == message.ResultCodeResumeRequestConflict {
-			return false
-		}
-
-		if resp.ResultCode != message.ResultCodeSucceeded {
-			resErr = &errors.FailedMessageError{
-				ResultCode:      resp.ResultCode,
-				ResultString:    resp.ResultString,
-				ReceivedMessage: resp,
+	}
+	if resErr == nil {
+		retry.Do(func() (end bool) {
+			resp, err := d.wireConn.SendDownstreamResumeRequest(d.ctx, &message.DownstreamResumeRequest{
+				StreamID:             d.ID,
+				DesiredStreamIDAlias: d.idAlias,
+			})
+			if err != nil {
+				resErr = fmt.Errorf("failed to SendDownstreamResumeRequest: %w", err)
+				return true
 			}
-			return true
-		}
-		resErr = nil
-		d.dpsCh = dpsCh
-		d.ackCompCh = ackCompCh
-		d.metaCh = metaCh
-		d.finalAckFlushed = make(chan struct{})
 
-		return true
-	})
+			if resp.ResultCode == message.ResultCodeResumeRequestConflict {
+				return false
+			}
+
+			if resp.ResultCode != message.ResultCodeSucceeded {
+				resErr = &errors.FailedMessageError{
+					ResultCode:      resp.ResultCode,
+					ResultString:    resp.ResultString,
+					ReceivedMessage: resp,
+				}
+				return true
+			}
+			resErr = nil
+			d.dpsCh = dpsCh
+			d.ackCompCh = ackCompCh
+			d.metaCh = metaCh
+			d.finalAckFlushed = make(chan struct{})
+
+			return true
+		})
+	}
 	if resErr != nil {
 		d.closeWithError(d.ctx, resErr)
 		return resErr
